@@ -1,5 +1,5 @@
 (* C20 - duplicated rules never contradict each other.  Statements only (proofs: Kernels/Order.v, Kernels/Pairs.v). *)
-From ZL Require Import Base.Bytes Kernels.Order Kernels.Pairs.
+From ZL Require Import Base.Bytes Kernels.Order Kernels.Pairs Kernels.Names Kernels.NamesFacts Kernels.GeneralNames Kernels.GeneralNamesFacts.
 From Coq Require Import ZArith List.
 Open Scope Z_scope.
 
@@ -29,8 +29,33 @@ Theorem c20_limit_pairs : forall hi lo x,
   lo <= hi -> limit_lint Pairs.sError hi x = Pairs.sError -> limit_lint Pairs.sWarn lo x = Pairs.sWarn.
 Proof. exact limit_error_implies_warning. Qed.
 
+(* the label-length and empty-label rules (RFC / BR copies, modelled in full in Kernels/Names.v) agree when the
+   certificate is in TLS scope and the common name adds no name *)
+Theorem c20_name_twins : forall v,
+  nv_tls v = true -> (forall n, In n (cn_if_name v) -> In n (nv_dns v)) ->
+  l_label_too_long v = l_rfc_label_too_long v /\ l_empty_label v = l_rfc_empty_label v.
+Proof. exact twins_agree. Qed.
+
+(* the issuerAltName copies of the community / RFC dNSName rules are the subjectAltName rules applied to the other
+   list: same names, both extensions present => same status (five pairs) *)
+Theorem c20_san_ian_twins : forall v (n : nview),
+  nv_san_ext n = gv_ian_ext v -> nv_dns n = gv_ian_dns v ->
+  g_ian_bare_wildcard v = l_bare_wildcard n /\ g_ian_null_char v = l_null_char n /\
+  g_ian_starts_period v = l_starts_period n /\ g_ian_wildcard_not_first v = l_wildcard_not_first n /\
+  g_ian_space v = l_space_name n.
+Proof. exact gn_twins_agree. Qed.
+
+(* the one pair whose copies implement different rules (recorded finding): "example.com" in the issuerAltName is
+   reported by w_ian_iana_pub_suffix_empty although it is not a public suffix *)
+Theorem c20_pub_suffix_copy_differs :
+  g_ian_pub_suffix (mkGview true false true true false [] [] true [] [s2b "example.com"]) = 5.
+Proof. exact gn_pub_suffix_copy_differs. Qed.
+
 Print Assumptions c20_label_pairs.
 Print Assumptions c20_uri_host_pair.
 Print Assumptions c20_uri_host_old_refuted.
 Print Assumptions c20_mirror.
 Print Assumptions c20_limit_pairs.
+Print Assumptions c20_name_twins.
+Print Assumptions c20_san_ian_twins.
+Print Assumptions c20_pub_suffix_copy_differs.
